@@ -62,7 +62,7 @@ POINT_ESTIMATES = ([], ["b"], ["a"])
 NSAMPLES = (2, 0, 1)
 
 
-def h_config(B, outdir, strategy, plotting, export, niter, symbolic):
+def h_config(B, outdir, strategy, plotting, export, niter, symbolic, small=False):
     """outdir / strategy / plotting / export: enumerated by the scenario list (they select files, not control flow of the
     optimisation).  `symbolic`: the set of options that are symbolic in this scenario; the others take their default."""
     import nifty.cl.minimization.optimize_kl as okl
@@ -87,6 +87,7 @@ def h_config(B, outdir, strategy, plotting, export, niter, symbolic):
             return values[default]
         return values[pick(f"{name}@{i}", 0, len(values) - 1)]
 
+    NSAMPLES, POINT_ESTIMATES = ((2, 0), ([], ["b"])) if small else (globals()["NSAMPLES"], globals()["POINT_ESTIMATES"])
     dom, lh, init = _model()
     calls = {"transition": [], "inspect": [], "terminate": [], "stream": {}}
 
@@ -150,7 +151,7 @@ def h_config(B, outdir, strategy, plotting, export, niter, symbolic):
     stack0 = list(rnd._sseq)
     sc.Ctx.cur = None
     try:
-        insp = opt("inspect", 0, (None, inspect1, inspect2)) if "inspect" in symbolic else None
+        insp = opt("inspect", 0, (None, inspect2) if small else (None, inspect1, inspect2)) if "inspect" in symbolic else None
         if insp is not None:
             kw["inspect_callback"] = insp
         try:
@@ -204,7 +205,7 @@ def h_config(B, outdir, strategy, plotting, export, niter, symbolic):
     B.is_true("terminate_callback is asked once after every executed iteration, in order, and stops the loop when it returns True",
               "terminate" not in symbolic or [i for i, _ in calls["terminate"]] == executed)
     if "inspect" in symbolic and memo.get("inspect@0", 0) != 0:
-        two = memo["inspect@0"] == 2
+        two = memo["inspect@0"] == 2 or small
         B.is_true("inspect_callback is called after every executed iteration with the sample list (and the iteration index)",
                   [i for i, _ in calls["inspect"]] == (executed if two else [None] * len(executed)) and all(ok for _, ok in calls["inspect"]))
     if "transitions" in symbolic:
@@ -274,8 +275,8 @@ ALL = tuple(sorted(set(FLOW) | set(MODEL)))
 
 
 def scenarios(tier, seed):
-    def s(outdir, strategy, plotting, export, niter, symbolic):
-        return ("config", {"outdir": outdir, "strategy": strategy, "plotting": plotting, "export": export, "niter": niter, "symbolic": symbolic})
+    def s(outdir, strategy, plotting, export, niter, symbolic, **k):
+        return ("config", {"outdir": outdir, "strategy": strategy, "plotting": plotting, "export": export, "niter": niter, "symbolic": symbolic, **k})
     quick = [s(False, "latest", False, False, 2, FLOW),
              s(True, "all", False, False, 2, FLOW),
              s(True, "latest", False, True, 2, MODEL),
@@ -286,7 +287,7 @@ def scenarios(tier, seed):
                 s(True, "all", "sym", False, 2, ("dry_run", "terminate", "n_samples", "sanity_checks", "return_final_position")),
                 s(False, "latest", False, False, 3, ("dry_run", "terminate", "fresh", "n_samples", "transitions")),
                 s(False, "latest", False, False, 3, ("n_samples", "constants", "point_estimates")),
-                s(False, "latest", False, False, 2, ALL)]
+                s(False, "latest", False, False, 2, ALL, small=True)]     # all options together, two values per option
     return quick if tier == "quick" else quick + thorough
 
 
@@ -311,7 +312,7 @@ META = {
     "bounds": {"global iterations": "2 (3 in two thorough scenarios)", "n_samples per iteration": "{2, 0, 1}", "constants per iteration": "{[], [a]}",
                "point_estimates per iteration": "{[], [b], [a]}", "transitions per iteration": "{None, sl -> sl.average()}",
                "fresh_stochasticity per iteration >= 1": "{True, False}", "terminate_callback per iteration": "{False, True}",
-               "inspect_callback": "{None, 1 argument, 2 arguments}", "symbolic option groups": "control-flow group and model group (quick), all options together (thorough)"},
+               "inspect_callback": "{None, 1 argument, 2 arguments}", "symbolic option groups": "control-flow group and model group (quick), all options together with two values per option (thorough)"},
     "stubs": [],
     "outside": ["MPI communicators", "geoVI sampling (nonlinear_sampling_minimizer)", "device_id != -1", "resume (C25)", "initial_position=None",
                 "numerical quality of the inference result (C19, C20)", "exceptions raised by invalid configurations"],
